@@ -19,7 +19,7 @@ LEVEL = 'exploration'
 BUDGET = {'quick': 20, 'thorough': 240}
 BLOCK = 25
 STREAM_ORDER = ['strings', 'ops', 'guards', 'chart', 'cfg']
-RULE = ('mode S (2 of 3 runs): a valid chart is built through the API with all state kinds, contracts, integer priorities (high/low and others) and '
+RULE = ('mode S (2 of 3 runs): a valid chart is built through the API with all state kinds, contracts, integer priorities (high/low and others), now and then a transition with no field set at all, and '
         'names / events / code / description / preamble drawn from a YAML-hostile alphabet (indicators, quotes, #, ": ", leading "- " / "? ", '
         'unicode incl. U+0085/U+2028, tabs, multi-line, number / boolean / null look-alikes); export_to_yaml -> import_from_yaml through the text '
         'route and the filepath route (file in a directory owned by the run); field-by-field structural comparison and == of every state and '
@@ -147,6 +147,9 @@ def build_hostile(st):
             t.guard = S(strip=True)
         conds(t)
         sc.add_transition(t)
+    if srcs and st.flag(1, 3):
+        # a transition with nothing at all: internal, eventless, no guard, no action, default priority, no contract
+        sc.add_transition(model.Transition(st.pick(srcs)))
     sc.validate()
     return sc, used
 
